@@ -523,13 +523,11 @@ def mean_grp(xx, groups, num_groups, nodata, yy):
         grp_ix = groups == grp
         pix = xx[grp_ix]
         n = 0
+        avg = 0.0
         for pixv in pix:
             if pixv == nodata:
                 continue
-            if n == 0:
-                avg = pixv
-            else:
-                avg += pixv
+            avg += pixv
             n += 1
         if n == 0:
             avg = nodata
